@@ -238,7 +238,7 @@ func c11ProgSpecs(thorough bool) []*gen.ProgSpec {
 	var specs []*gen.ProgSpec
 	maxN := 5
 	if thorough {
-		maxN = 6
+		maxN = 7
 	}
 	canon := func(ch []int) []tableref.StscEntry {
 		var stsc []tableref.StscEntry
@@ -342,7 +342,7 @@ func c11FragSpecs(thorough bool) []*gen.FSpec {
 	var specs []*gen.FSpec
 	maxN := 4
 	if thorough {
-		maxN = 5
+		maxN = 6
 	}
 	for n := 1; n <= maxN; n++ {
 		enum.Compositions(n, func(p []int) { // fragment sizes
@@ -623,7 +623,7 @@ func runC11(c *vf.Ctx) {
 		c.SetBudget(4 * 60 * 1e9)
 	}
 	c.Rule = "A segmenter: generated progressive files (video with stss: every sync subset containing sample 1 x duration tuples over {1,2} x chunkings x ctts/sdtp/co64 variants, optionally + audio covering the video) x every target duration 1..total+1 ms x modes {single-track, -m, -lazy}, run through the tool's own run(); B resegmenter: generated single-track fragmented files (<=3 fragments in 1-2 segments, every sync subset, base time 0/3, trun/tfhd/trex default modes) x every chunk duration 1..total+1 through Resegment(); C MediaSegment.Fragmentify on the same files x every duration; D combine-segs: pairs of single-track segments (1..3 samples each x flag/duration variants) through combineInitSegments/combineMediaSegments. Outputs are parsed by an independent fragment reader and compared sample by sample with the input. A case = (input, duration, mode)."
-	c.Bound = "video N <= 5 (quick) / 6 (thorough); fragmented N <= 4 / 5; combine <= 3 samples per track"
+	c.Bound = "video N <= 5 (quick) / 7 (thorough); fragmented N <= 4 / 6; combine <= 3 samples per track"
 	nw := 16
 	type pool struct{ ch chan *drv.Proc }
 	mk := func(name string) *pool {
